@@ -119,17 +119,13 @@ def run(ctx):
 
     # ---- R02.6 a deleted value is never returned: the hide-before-queueing rules of C04 -----------------
     import c04
-    sub = type(ctx)(ctx.prop, ctx.facts, ctx.tier, ctx.config)
-    c04.run(sub)
-    for o in sub.obligations:
+    for o in ctx.own_of("c04"):
         if o["rule"] in ("R04.1", "R04.2"):
             ctx._add(o["status"], "R02.6", o["key"].split("|", 1)[1], o["desc"], o["where"], o["detail"])
 
     # ---- R02.7 a completed upsert's value is what readers see: the request reaches the entry unchanged (C08 R08.6/R08.9)
     import c08
-    sub = type(ctx)(ctx.prop, ctx.facts, ctx.tier, ctx.config)
-    c08.run(sub)
-    for o in sub.obligations:
+    for o in ctx.own_of("c08"):
         if o["rule"] in ("R08.9",) or (o["rule"] == "R08.6" and "update-gets-request-fields" in o["key"]) or (o["rule"] == "R08.1"):
             ctx._add(o["status"], "R02.7", o["key"].split("|", 1)[1], o["desc"], o["where"], o["detail"])
 
